@@ -80,15 +80,17 @@ fn main() {
         }
         let case = json!({"scenario": s.name(), "real_thread_repetitions": reps});
         let mut died = None;
-        for _ in 0..reps {
+        for r in 0..reps {
+            if r % 50 == 49 && rep.over_budget() {
+                break;
+            }
             if let Err(p) = common::catch(|| scenario(*s)) {
                 died = Some(p);
                 break;
             }
             runs += 1;
         }
-        rep.evaluations += reps;
-        rep.nontrivial_cases += reps;
+        // (counted below from `runs`)
         rep.signatures.insert(format!("stress|{}", s.name()));
         for (sig, detail) in std::mem::take(&mut *FOUND.lock().unwrap()) {
             rep.violation(&sig, detail, case.clone());
@@ -98,6 +100,8 @@ fn main() {
             break; // a panic under a manager lock leaves the process unusable
         }
     }
+    rep.evaluations += runs;
+    rep.nontrivial_cases += runs;
     rep.count("stress_runs", runs);
     rep.finish()
 }
